@@ -46,7 +46,8 @@ class RandomPolicy:
     """Seeded random environment: application sends and datagram fates."""
 
     def __init__(self, seed, p_send=0.35, p_loss=0.1, p_dup=0.05, p_replay=0.02, maxdelay=12, lens=None, retries=(0, 0, -1, -1, 1),
-                 p_cb=0.7, replay_back=400, burst=0.0, burst_lens=(4, 4, 5), p_forge=0.0, p_stall=0.0, burst_retries=(0, 0, -1), mindelay=0):
+                 p_cb=0.7, replay_back=400, burst=0.0, burst_lens=(4, 4, 5), p_forge=0.0, p_stall=0.0, burst_retries=(0, 0, -1), mindelay=0,
+                 p_outage=0.0, outage_len=(30, 150)):
         self.rnd = random.Random(seed)
         self.p_send, self.p_loss, self.p_dup, self.p_replay, self.maxdelay = p_send, p_loss, p_dup, p_replay, maxdelay
         self.lens = lens
@@ -59,6 +60,7 @@ class RandomPolicy:
         self.burst_retries = list(burst_retries)
         self.mindelay = mindelay
         self.stall_until = {}
+        self.p_outage, self.outage_len, self.outage_until = p_outage, outage_len, {}
         self.burst_lens = list(burst_lens)
 
     def sends(self, tick, name, world):
@@ -76,6 +78,13 @@ class RandomPolicy:
         return out
 
     def fate(self, tick, name, dgid, world):
+        if self.p_outage:
+            # a link outage: every datagram of one direction is lost for 0.5 .. 2.5 s (longer than the resend interval and the ack time-out)
+            if self.outage_until.get(name, -1) >= tick:
+                return []
+            if self.rnd.random() < self.p_outage:
+                self.outage_until[name] = tick + self.rnd.randint(*self.outage_len)
+                return []
         if self.rnd.random() < self.p_loss:
             return []
         f = [self.rnd.randint(self.mindelay, max(self.mindelay, self.maxdelay))]
